@@ -2,7 +2,8 @@
 
    Transcribed from the repaired tree (/repo commits cfaf3f5 zlib container, f3a83f8 message parse,
    c414fcd Fletcher-32 verification, d7e9c97 empty shuffle chunk, b6934a2 zero element size;
-   patches kept in notes/fixes/c08-*.patch):
+   patches kept in notes/fixes/c08-*.patch; 37cc16e + cd14fb7 LZF long back-reference byte order,
+   92e0a56 size limits):
      internal/writer/filter_shuffle.go      ShuffleFilter.Apply / Remove
      internal/writer/filter_fletcher32.go   Fletcher32Filter.Apply / Remove (calculateFletcher32 = core.Fletcher32)
      internal/writer/filter_lzf.go          lzfCompress, hashLZF, appendLiteral, appendBackref, lzfDecompress
@@ -189,7 +190,7 @@ Definition lzf_backref (offset len : nat) : bytes :=
   let l := N.of_nat len in
   if (len <=? 8)%nat
   then [wrap8 ((l - 2) * 32 + off / 256); off mod 256]
-  else [wrap8 (224 + off / 256); off mod 256; wrap8 (l - 9)].
+  else [wrap8 (224 + off / 256); wrap8 (l - 9); off mod 256].   (* long form: the length byte precedes the low offset byte *)
 
 (* for matchLen < maxLen && input[ref+matchLen] == input[inPos+matchLen]: number of further equal bytes *)
 Fixpoint lzf_ext (a b : bytes) (bound : nat) : nat :=
@@ -253,7 +254,8 @@ Fixpoint copy_back (n src : nat) (out : bytes) : bytes :=
   end.
 
 (* lzfDecompress (identical in internal/writer and internal/core).  On a byte c:
-   c&0xE0 == 0 is c < 32;  c&0x1F is c mod 32;  c>>5 is c/32;  c&0xE0 == 0xE0 is c/32 = 7. *)
+   c&0xE0 == 0 is c < 32;  c&0x1F is c mod 32;  c>>5 is c/32;  c&0xE0 == 0xE0 is c/32 = 7.
+   Long back reference: ctrl, length byte, low offset byte (the LZF stream format). *)
 Fixpoint lzf_dec (fuel : nat) (input out : bytes) : outcome bytes :=
   match input with
   | [] => Ok out
@@ -268,18 +270,19 @@ Fixpoint lzf_dec (fuel : nat) (input out : bytes) : outcome bytes :=
       else
         match r with
         | [] => Err                                          (* truncated backreference *)
-        | lo :: r2 =>
-          let off := (N.to_nat ((ctrl mod 32) * 256 + lo) + 1)%nat in
+        | b1 :: r2 =>
           if ctrl / 32 =? 7 then
+            let run := (N.to_nat b1 + 9)%nat in
             match r2 with
             | [] => Err                                      (* truncated long backreference *)
-            | lb :: r3 =>
-              let run := (N.to_nat lb + 9)%nat in
+            | lo :: r3 =>
+              let off := (N.to_nat ((ctrl mod 32) * 256 + lo) + 1)%nat in
               if (length out <? off)%nat then Err            (* invalid offset *)
               else lzf_dec f r3 (copy_back run (length out - off) out)
             end
           else
             let run := (N.to_nat (ctrl / 32) + 2)%nat in
+            let off := (N.to_nat ((ctrl mod 32) * 256 + b1) + 1)%nat in
             if (length out <? off)%nat then Err
             else lzf_dec f r2 (copy_back run (length out - off) out)
         end
@@ -364,7 +367,7 @@ Fixpoint parse_filters (n : nat) (v1 : bool) (ver : N) (d : bytes) : outcome (li
       let ncd := unle (firstn 2 d) in
       let d := skipn 2 d in
       let named := v1 && (0 <? nl) in
-      let padded := if nl mod 8 =? 0 then nl else wrap16 (nl + (8 - nl mod 8)) in
+      let padded := if nl mod 8 =? 0 then nl else nl + (8 - nl mod 8) in   (* computed as int: no 16-bit wrap *)
       if named && (N.of_nat (length d) <? padded) then Err   (* filter name truncated *)
       else
         let name := if named then name_of (firstn (N.to_nat nl) d) else [] in
@@ -391,6 +394,9 @@ Definition parse_msg (data : bytes) : outcome (N * N * list fdesc) :=
       bind (parse_filters (N.to_nat nf) v1 ver d) (fun fs => Ok (ver, nf, fs))
   | _ => Err                                                 (* message too short *)
   end.
+
+(* utils.MaxChunkSize = 1 GiB *)
+Definition max_chunk_size : N := 1073741824.
 
 Section Pipeline.
   (* compress/zlib is not re-proved: writer = zlib.NewWriterLevel, reader = zlib.NewReader + io.ReadAll *)
@@ -422,9 +428,16 @@ Section Pipeline.
   Definition pipeline_remove (fs : list filter) (y : bytes) : outcome bytes :=
     fold_left (fun acc f => bind acc (remove1 f)) (rev fs) (Ok y).
 
+  (* reader applyDeflate: the inflated chunk may not exceed utils.MaxChunkSize *)
+  Definition reader_inflate_o (d : bytes) : outcome bytes :=
+    match inflate d with
+    | Some x => if max_chunk_size <? N.of_nat (length x) then Err else Ok x
+    | None => Err
+    end.
+
   (* reader applyFilter *)
   Definition reader_apply1 (f : fdesc) (data : bytes) : outcome bytes :=
-    if fid f =? 1 then inflate_o data
+    if fid f =? 1 then reader_inflate_o data
     else if fid f =? 2 then reader_unshuffle (fcd f) data
     else if fid f =? 3 then
       (if (length data <? 4)%nat then Err else Ok (firstn (length data - 4) data))   (* applyFletcher32: strip *)
@@ -445,8 +458,11 @@ Section Pipeline.
       match reader_apply1 f result with
       | Ok r =>
         if (fid f =? 32000) && (3 <=? length (fcd f))%nat && (0 <? nth 2 (fcd f) 0)
-           && (N.of_nat (length r) <? nth 2 (fcd f) 0)
-        then Ok (r ++ repeat 0 (N.to_nat (nth 2 (fcd f) 0) - length r))
+        then
+          if max_chunk_size <? nth 2 (fcd f) 0 then Err       (* expected chunk size exceeds MaxChunkSize: hard error *)
+          else if N.of_nat (length r) <? nth 2 (fcd f) 0
+          then Ok (r ++ repeat 0 (N.to_nat (nth 2 (fcd f) 0) - length r))
+          else Ok r
         else Ok r
       | Err => if N.odd (fflags f) then Ok [] else Err       (* optional filter: continue with a nil result *)
       | o => o
